@@ -73,6 +73,33 @@ def rule_inputs_side_by_side(src, rep, km, counts):
         bad = {m: got[m] for m in order if got[m] != want[m]}
         rep.ob("N6-naming-mode-belongs-to-the-input-object", f.where(), "input:Input", "Inputs created in the order %s, each fed ESC[A a ESC O P" % (order,),
                not bad, "the Input(s) %s returned %s; expected %s" % (sorted(bad), bad, {m: want[m] for m in bad}), witness={"order": list(order)})
+    # keynames is a public attribute: ONE Input switched through the modes names its keys in the mode in place at the time
+    it.folder.overrides.clear()
+    it.folder.__dict__.pop("_class_attrs", None)
+    osm = osmodel.OS()
+    osmodel.install(it, osm)
+    inp = it.new("input", "Input", in_stream=Record(fileno=NativeFunc(lambda a, k: 0), name="<stdin>"), keynames=km.modes["CURTSIES"], paste_threshold=None)
+    if "keynames" not in inp.fields:
+        raise AnalysisError("Input keeps no public attribute keynames")
+    got = {}
+    for mode in ("CURTSIES", "BYTES", "CURSES", "CURTSIES"):
+        inp.fields["keynames"] = km.modes[mode]
+        mark = it.checkpoint()
+        it.callm(inp, "unget_bytes", data)
+        keys = []
+        for _ in range(3):
+            r = it.callm(inp, "send", 0)
+            if r[0] == "opaque":
+                raise AnalysisError("Input.send outside the evaluated subset: %s" % r[1])
+            keys.append(r[1] if r[0] == "ok" else r)
+        if it.dirty(mark):
+            raise AnalysisError("Input.send: %s" % it.dirty(mark))
+        got.setdefault(mode, []).append(keys)
+        n += 1
+        rep.case(True)
+    bad = {m: v for m, v in got.items() if any(x != want[m] for x in v)}
+    rep.ob("N6-naming-mode-belongs-to-the-input-object", f.where(), "input:Input", "one Input whose keynames attribute is set to each mode in turn, fed ESC[A a ESC O P each time",
+           not bad, "after assigning keynames the Input returned %s; expected %s" % (bad, {m: want[m] for m in bad}), witness={"order": ["CURTSIES", "BYTES", "CURSES", "CURTSIES"]})
     # a burst read in one go comes back as a paste event: its keypresses are named in the Input's own mode too, and are cut alike
     burst = b"print \x1b[A\xc3\xa9x"
     want = {"CURTSIES": ["p", "r", "i", "n", "t", "<SPACE>", "<UP>", "\xe9", "x"],
@@ -224,7 +251,7 @@ def rule_config(src, rep, km, counts):
                    "a valid configuration key name gives %s instead of a tuple of key names" % (r,), witness={"key": key})
             continue
         dead = [x for x in r[1] if x not in producible]
-        rep.ob("N5-config-names-producible", f.where(), f.scope, "keymap[%r] -> %s" % (key, list(r[1])), not dead,
+        rep.ob("N5-config-names-producible", f.where(), f.scope, "keymap[%r] -> %s%s" % (key, list(r[1]), ", never produced: %s" % dead if dead else ""), not dead,
                "the decoder never produces %s (the bytes of that key are named %s): a binding to %s is silently dead"
                % (dead, _what_instead(km, key), key), witness={"key": key, "names": list(r[1]), "dead": dead})
     r = it.call1("configfile_keynames", "KeyMap.__getitem__", obj, "")
